@@ -78,6 +78,8 @@ type Frame struct {
 	rets     []retInfo
 	curBlock *ssa.BasicBlock
 	callOrd  map[string]int
+	atIdx    int
+	seenCalls map[string]bool
 }
 
 type deferred struct {
@@ -789,12 +791,15 @@ func (x *Exec) checkLoopMods(fr *Frame, li *loopInfo, st *State) {
 
 // execBlock executes the non-phi instructions of a block.
 func (x *Exec) execBlock(fr *Frame, b *ssa.BasicBlock, st *State) {
-	for _, in := range b.Instrs {
+	for idx, in := range b.Instrs {
 		if _, ok := in.(*ssa.Phi); ok {
 			continue
 		}
+		fr.atIdx = idx
+		fr.curBlock = b
 		x.execInstr(fr, in, st)
 	}
+	fr.atIdx = 0
 	fr.out[b] = st
 	// edges
 	last := b.Instrs[len(b.Instrs)-1]
